@@ -11,4 +11,4 @@ Extraction "extracted/model.ml" Bytes.bs Bytes.to_dec Bytes.dec Bytes.utf8_valid
   Natives.parse OwnedRun.owned_parse
   Frames.fstep Frames.finit Frames.read
   Machine.run_chain BuilderTables.gen_machine Machine.read_fetch Machine.denote Machine.render_fetch Machine.generic
-  Client.client_init Client.call Client.stream_poll Client.fr_poll Client.rf_init Client.decode Synth.probes Synth.sentences.
+  Client.client_init Client.call Client.stream_poll Client.fr_poll Client.rf_init Client.decode Synth.probes Synth.sentences Synth.fn_names Synth.run_fn Synth.fn_sentences.
